@@ -40,15 +40,15 @@ theorem error_kinds_preserved_except :
        ("HeadObject", "NoSuchKey"), ("HeadObject", "MethodNotAllowed"),
        ("GetObject", "NoSuchBucket"), ("GetObject", "NoSuchKey"), ("GetObject", "MethodNotAllowed"),
        ("DeleteObject", "NoSuchBucket"), ("DeleteObject", "PreconditionFailed"),
-       ("CopyObject", "NoSuchKey"), ("TransitionObjectStorageClass", "NoSuchKey"),
+       ("CopyObject", "NoSuchKey"), ("CopyObject", "MethodNotAllowed"), ("TransitionObjectStorageClass", "NoSuchKey"),
        ("CreateMultipartUpload", "NoSuchBucket"), ("UploadPart", "NoSuchBucket"), ("UploadPart", "NoSuchKey"),
        ("CompleteMultipartUpload", "NoSuchBucket"), ("CompleteMultipartUpload", "NoSuchKey"),
        ("CompleteMultipartUpload", "InvalidPart"), ("CompleteMultipartUpload", "InvalidPartOrder"),
        ("CompleteMultipartUpload", "PreconditionFailed"),
        ("AbortMultipartUpload", "NoSuchBucket"), ("AbortMultipartUpload", "NoSuchKey"),
-       ("GetObjectTagging", "NoSuchBucket"), ("GetObjectTagging", "NoSuchKey"),
-       ("PutObjectTagging", "NoSuchBucket"), ("PutObjectTagging", "NoSuchKey"),
-       ("DeleteObjectTagging", "NoSuchBucket"), ("DeleteObjectTagging", "NoSuchKey"),
+       ("GetObjectTagging", "NoSuchBucket"), ("GetObjectTagging", "NoSuchKey"), ("GetObjectTagging", "MethodNotAllowed"),
+       ("PutObjectTagging", "NoSuchBucket"), ("PutObjectTagging", "NoSuchKey"), ("PutObjectTagging", "MethodNotAllowed"),
+       ("DeleteObjectTagging", "NoSuchBucket"), ("DeleteObjectTagging", "NoSuchKey"), ("DeleteObjectTagging", "MethodNotAllowed"),
        ("ListObjects", "NoSuchBucket"), ("ListObjectVersions", "NoSuchBucket")] := by decide
 
 /-- Negation witness: through the client, `HeadObject` of a missing key in an existing bucket is
